@@ -53,6 +53,11 @@ def main_for(prop, argv=None, level="other"):
         from vlib.modelreplay import make_replayer
         world.report(ck, res3, replayer=make_replayer(ck, ["buffers"]))
         ck.trusted.append("file model (content, pos) of contracts/buffers.py for BytesIO / TemporaryFile (assumed; exercised by C17's bounded stand-in)")
+    if prop == "C04" and ck.tier == "thorough":
+        # the two facts the channel world only ASSUMES (backlog counter non-negative, a pending request is never completed) and the monitor
+        # invariants, judged on the executions of the repository's tests
+        from vlib.runtime import run_monitor
+        run_monitor(ck, ("channel.",))
     if prop == "C13":
         # listener safety: socket errors on accept / option calls / channel set-up never escape handle_accept nor stop the listener
         res2 = world.run_functions(ck, ["server"], ["server.BaseWSGIServer.handle_accept"], timeout=20, hooks_mod="contracts.server")
